@@ -17,9 +17,30 @@ def cyl_ref(size, r, h, c):
     return (((g[0] - c[0]) ** 2 + (g[1] - c[1]) ** 2 <= r * r) & (np.abs(g[2] - c[2]) <= h // 2)).astype(float)
 
 
+def _ell_terms(size, radii, c):
+    """exact integer form of sum ((i-c)/r)^2 <= 1:  sum (i-c)^2 * prod_{b != a} r_b^2  <=  prod r_a^2   (integral centres and radii)"""
+    g = _grid(size)
+    r2 = [int(r) ** 2 for r in radii]
+    lhs = sum(((g[a] - int(c[a])) ** 2).astype(object) * (r2[(a + 1) % 3] * r2[(a + 2) % 3]) for a in range(3))
+    return lhs, r2[0] * r2[1] * r2[2]
+
+
 def ell_ref(size, radii, c):
+    if all(float(x) == int(x) for x in list(radii) + list(c)) and all(int(r) > 0 for r in radii):
+        lhs, rhs = _ell_terms(size, radii, c)
+        return (lhs <= rhs).astype(float)
     g = _grid(size)
     return (sum(((g[a] - c[a]) / radii[a]) ** 2 for a in range(3)) <= 1).astype(float)
+
+
+def ell_edge(size, radii, c):
+    """voxels EXACTLY on the ellipsoid surface (sum = 1 over the rationals): the code evaluates the sum in floating point, where it may come
+    out as 1 or 1 + 2^-52; such voxels are excluded from the comparison (machine arithmetic is treated as mathematical everywhere else)"""
+    if all(float(x) == int(x) for x in list(radii) + list(c)) and all(int(r) > 0 for r in radii):
+        lhs, rhs = _ell_terms(size, radii, c)
+        return (lhs == rhs)
+    g = _grid(size)
+    return np.abs(sum(((g[a] - c[a]) / radii[a]) ** 2 for a in range(3)) - 1) < 1e-9
 
 
 def replay_shape(kind, model):
@@ -74,12 +95,14 @@ def gen_cases(seed, n_cases, maxbox=20):
 def run_case(c):
     from cryocat import cryomask
     kind, size, cen = c["kind"], c["size"], c["center"]
+    dontcare = None
     if kind == "sphere":
         m, e = call(cryomask.spherical_mask, size, radius=c["radius"], center=cen); ref = sphere_ref(size, c["radius"], cen)
     elif kind == "cylinder":
         m, e = call(cryomask.cylindrical_mask, size, radius=c["radius"], height=c["height"], center=cen); ref = cyl_ref(size, c["radius"], c["height"], cen)
     elif kind == "ellipsoid":
         m, e = call(cryomask.ellipsoid_mask, size, radii=c["radii"], center=cen); ref = ell_ref(size, c["radii"], cen)
+        dontcare = ell_edge(size, c["radii"], cen)
     elif kind == "s_shell":
         r, t = c["radius"], min(c["thick"], 2 * c["radius"])
         m, e = call(cryomask.spherical_shell_mask, size, t, radius=r, center=cen); ref = sphere_ref(size, r + t / 2, cen) - sphere_ref(size, r - t / 2, cen)
@@ -88,6 +111,7 @@ def run_case(c):
         m, e = call(cryomask.ellipsoid_shell_mask, size, t, rad, center=cen)
         # ellipsoid radii are integers in cryomask (get_correct_format truncates): outer/inner solids use trunc(r +- t/2)
         ref = ell_ref(size, [int(x + t / 2) for x in rad], cen) * (1 - ell_ref(size, [int(x - t / 2) for x in rad], cen))
+        dontcare = ell_edge(size, [int(x + t / 2) for x in rad], cen) | ell_edge(size, [int(x - t / 2) for x in rad], cen)
     elif kind == "soft":
         r = max(1, min(c["radius"], min(size) // 2 - 1)); sg = c["sigma"]
         which = c["seed"] % 3
@@ -115,6 +139,8 @@ def run_case(c):
         m = np.asarray(m, float); sz = list(m.shape); cc = [s // 2 for s in sz]
         ref = {"sphere": lambda: sphere_ref(sz, r, cc), "cyl": lambda: cyl_ref(sz, r, h, cc), "shell": lambda: sphere_ref(sz, r + 2 + t / 2, cc) - sphere_ref(sz, r + 2 - t / 2, cc),
                "ell": lambda: ell_ref(sz, [r, r + 1, r + 2], cc)}[refk]()
+        if refk == "ell" and m.shape == ref.shape:
+            m = np.where(ell_edge(sz, [r, r + 1, r + 2], cc), ref, m)
         if len(set(sz)) != 1 or not np.array_equal(m, ref):
             return {"what": f"generate_mask('{name}') differs from the analytic shape", "shape": sz}
         for bad in ("sphere_r", "cube_r3", "cylinder_r3", "sphere_r3_h2"):
@@ -145,6 +171,8 @@ def run_case(c):
     if e is not None:
         return {"raised": f"{kind}: {type(e).__name__}: {e}", "size": size, "center": cen, "radius": c["radius"], "height": c["height"]}
     m = np.asarray(m, float)
+    if dontcare is not None and m.shape == ref.shape:
+        m = np.where(dontcare, ref, m)
     if m.shape != tuple(size) or not np.array_equal(m, ref):
         return {"what": f"{kind}: mask differs from the analytic inequality", "voxels": int(np.sum(m != ref)) if m.shape == ref.shape else -1, "size": size, "center": cen,
                 "radius": c["radius"], "height": c["height"], "radii": c["radii"]}
